@@ -154,7 +154,7 @@ Definition step (c : cfg) (st : cache) (o : op) (oc : string) (oh : Z) : cache *
   end.
 
 (* ------------------------------------------------------------------ observed histories *)
-Definition item := (op * obs)%type.
+Notation item := (op * obs)%type (only parsing).
 
 Definition call_eqb (x y : call) : bool :=
   let '(a, p, cd) := x in let '(a', p', cd') := y in String.eqb a a' && String.eqb p p' && String.eqb cd cd'.
@@ -208,14 +208,14 @@ Definition oracle_ok (c : cfg) (it : item) : bool :=
   end.
 
 (* one observed item is a behaviour of the model from state st: the next state *)
-Definition admits (c : cfg) (st : cache) (it : item) : option cache :=
+Definition conforms (c : cfg) (st : cache) (it : item) : option cache :=
   let '(st', ob') := step c st (fst it) (oracle_code (snd it)) (oracle_hash (snd it)) in
   if obs_eqb ob' (snd it) && oracle_ok c it then Some st' else None.
 
-Fixpoint admits_run (c : cfg) (st : cache) (items : list item) : bool :=
+Fixpoint conforms_run (c : cfg) (st : cache) (items : list item) : bool :=
   match items with
   | [] => true
-  | it :: r => match admits c st it with Some st' => admits_run c st' r | None => false end
+  | it :: r => match conforms c st it with Some st' => conforms_run c st' r | None => false end
   end.
 
 (* ------------------------------------------------------------------ the nonce generator *)
@@ -239,7 +239,7 @@ Definition nonce_bound (base : string) : Z := zlen base.
 Definition nonce_bound_prefix (base : string) : Z := zlen base - 1.
 
 (* a scripted draw function: asked for a number below b, it answers the target t when that is
-   admissible and the largest admissible number otherwise (raw: answers t whatever b is) *)
+   in-range and the largest in-range number otherwise (raw: answers t whatever b is) *)
 Definition clamp (raw : bool) (t b : Z) : Z := if raw then t else if b <=? 0 then t else Z.min t (b - 1).
 
 (* the run with a scripted draw function: the bounds asked until the end or the panic, and the result *)
@@ -253,3 +253,8 @@ Fixpoint nonce_run (bound : Z) (base : string) (raw : bool) (targets : list Z) :
                  (bound :: bs, match o with Some s => Some (String ch s) | None => None end)
     end
   end.
+
+Arguments tsub : simpl never.
+Arguments key : simpl never.
+Arguments mock_code : simpl never.
+Arguments valid_code : simpl never.
